@@ -72,7 +72,7 @@ pub fn run(ctx: &mut Ctx) {
         push(ctx, 12, &format!("client public key, modulus #{}", mi), &[&a, &[g], n], pk(catch(|| hk::calculate_client_public_key(a, g, *n))));
     }
     // ---- the public API ----
-    let n_login = if ctx.quick() { 3 } else { 20 };
+    let n_login = if ctx.quick() { 10 } else { 80 };
     for k in 0..n_login + 2 {
         let (u, p) = (rand_cred(&mut rng, 1 + k % 16), rand_cred(&mut rng, 16 - k % 16));
         let mut tape = rng.bytes(112);
